@@ -716,7 +716,10 @@ func (w *c14World) follow(k c14Key, lo, hi time.Duration) {
 }
 
 func (w *c14World) lockState() bool {
-	for i := 0; i < 200; i++ {
+	// with statement-level yields a task may be stalled (virtual time) inside the critical section:
+	// wait longer than the longest stall before calling the lock stuck
+	tries := 200 + int(w.x.Script.Get("y_stmax_us", 0)/1000)*2
+	for i := 0; i < tries; i++ {
 		if !w.drained {
 			w.x.YieldsOff()
 		}
